@@ -265,7 +265,7 @@ def shards(tier, seed):
     sp = special_bytes()
     npairs = len(pair_sources(tier, sp))
     items += [('pairs', tier, i) for i in range(npairs)]
-    items += [('via', tier, seed), ('history', tier, seed)]
+    items += [('via', tier, seed), ('history', tier, seed), ('defaults', tier)]
     items += [('programs', tier, k) for k in range(8)]
     return items
 
@@ -311,6 +311,17 @@ def run_shard(item):
                 roundtrip(fills, label, 33, b'-- t\n-- a\nfunction f(x) return x*2 end\nprint(f(%d))' % i, res,
                           ('via-' + via, i), via=via)
         res.sample({'family': 'via', 'writers': ['file.to_file', 'file.to_file over existing', 'p8tool writep8']})
+    elif kind == 'defaults':
+        # rows an editor leaves behind (all-zero rows, PICO-8's never-edited sfx/music rows) alone and among busy rows
+        from props import c16
+        n = 0
+        for sec in ('sfx', 'music', 'gfx', 'map', 'gff'):
+            regs = c16.default_regions(sec)
+            pick = regs if item[1] == 'thorough' and sec in ('music', 'gff') else (regs[:4] + regs[-2:] + regs[len(regs) // 2:len(regs) // 2 + 2])
+            for j, mem in enumerate(pick):
+                roundtrip({sec: mem}, None, 33, b'x=1\n', res, ('defaults', sec, regs.index(mem)))
+                n += 1
+        res.sample({'family': 'defaults', 'carts': n})
     elif kind == 'programs':
         for j, code in enumerate(packed_programs(item[1], item[2], 8)):
             roundtrip({}, None, 33, code, res, ('programs', item[2], j))
@@ -398,6 +409,9 @@ def replay(case):
     elif kind == 'lua':
         src = dict(lua_sources(tier))[tag[1]]
         roundtrip(carts.region_fills(0, 0), carts.gfx_region(0) if tag[2] else None, 33, src, res, tuple(tag), chain=2)
+    elif kind == 'defaults':
+        from props import c16
+        roundtrip({tag[1]: c16.default_regions(tag[1])[tag[2]]}, None, 33, b'x=1\n', res, tuple(tag))
     elif kind == 'label-blankish':
         roundtrip(carts.region_fills(0, 0), LABELS_BLANKISH()[tag[1]], 33, b'x=1\n', res, tuple(tag), chain=2)
     elif kind == 'pairs':
